@@ -25,7 +25,10 @@
 (*     (field / inline fragment with and without type condition / named    *)
 (*     fragment) from an operation root to one target field whose          *)
 (*     arguments are filled with value templates: every shape of the       *)
-(*     argument type up to a depth (lists, nested input objects), one      *)
+(*     argument type up to a depth (lists, nested input objects, input     *)
+(*     objects without secret fields of their own around inner ones with   *)
+(*     secrets, object / list values of a JSON-like scalar in a secret     *)
+(*     position), one                                                      *)
 (*     value node per argument optionally lifted into a variable (supplied,*)
 (*     default only, default and supplied), distinct sentinels in every    *)
 (*     secret leaf; named and anonymous operations, aliases.               *)
@@ -123,13 +126,11 @@ Sentinel(sty, i) == IF sty = "Int" THEN [k |-> "int", v |-> ToString(9100 + i), 
 ----------------------------------------------------------------------------
 (* 2. implementation-shaped model of the printer: the leaves it writes in clear.                       *)
 (* Deviations of today's code (known_findings/C21.json):                                               *)
-(*   DevListNotRedacted        stringify_input_value descends into objects only; a list is written     *)
-(*                             verbatim, with the secret fields of the input objects inside it         *)
-(*   DevUntypedInlineLosesType stringify_selection_set continues below `... { }` without a parent type *)
-(*                             so that no argument below it is recognised as secret                    *)
+(*   (fixed in /repo c722304, switches removed: lists were written verbatim; below `... { }` the       *)
+(*    parent type was lost)                                                                            *)
 (*   DevVarDefaultPrinted      the variable definitions of a named operation are written with their    *)
 (*                             default values verbatim                                                 *)
-Devs == {"DevListNotRedacted", "DevUntypedInlineLosesType", "DevVarDefaultPrinted"}
+Devs == {"DevVarDefaultPrinted"}
 
 RECURSIVE LeavesOf(_)
 LeavesOf(v) == CASE IsLeaf(v) -> {v}
@@ -159,7 +160,7 @@ PrintedVal(v, meta, dev) ==
             UNION {LET e == v.entries[i] IN
                    PrintedVal(e.val, IF e.key \in InputFieldsOf(tn) THEN Meta(TS.types[tn].inputFields[e.key]) ELSE NoMeta, dev)
                    : i \in 1..Len(v.entries)}
-  ELSE IF v.k = "list" /\ meta.present /\ "DevListNotRedacted" \notin dev
+  ELSE IF v.k = "list" /\ meta.present
        THEN LET ity == IF Strip(meta.ty).k = "list" THEN Strip(meta.ty).of ELSE meta.ty IN
             UNION {PrintedVal(v.items[i], [meta EXCEPT !.ty = ity], dev) : i \in 1..Len(v.items)}
   ELSE LeavesOf(v)                                        \* written verbatim
@@ -177,8 +178,7 @@ PrintedSels(E, sels, P, dev) ==
                 \cup PrintedSels(E, s.sels, IF fknown THEN [known |-> TRUE, t |-> NamedOf(FieldDef(P.t, s.name).ty)] ELSE [known |-> FALSE, t |-> ""], dev)
            [] s.k = "inline" ->
                 PrintedSels(E, s.sels,
-                            IF s.on # "" THEN [known |-> TRUE, t |-> s.on]
-                            ELSE IF "DevUntypedInlineLosesType" \in dev THEN [known |-> FALSE, t |-> ""] ELSE P, dev)
+                            IF s.on # "" THEN [known |-> TRUE, t |-> s.on] ELSE P, dev)
            [] OTHER -> {}
          : i \in 1..Len(sels)}
 PrintedDefs(op, dev) ==
@@ -198,12 +198,25 @@ Trigger(d, case) == Sids(Printed(case, {d})) # {}
 \* placeholder [k |-> "S"], numbered when the case is assembled.
 Absent == [k |-> "absent"]
 Benign(tn, ty) == IF tn = "Int" THEN [k |-> "int", v |-> "1", ty |-> ty] ELSE [k |-> "str", v |-> "pub", ty |-> ty]
-IsCompositeInput(ty) == Strip(ty).k = "list" \/ KindOf(NamedOf(ty)) = "INPUT_OBJECT"
+IsCompositeInput(ty) == Strip(ty).k = "list" \/ KindOf(NamedOf(ty)) = "INPUT_OBJECT" \/ NamedOf(ty) = "JSON"
 
+\* values of the JSON-like scalar in a secret position: a plain string, an object with a nested object, a list of
+\* objects -- every leaf its own sentinel.  json marks the node: nothing inside it is lifted into a variable (the
+\* inside of a custom scalar has no GraphQL type), only the value as a whole.
+JsonLeaf(sty) == [k |-> "S", ty |-> [k |-> "named", n |-> sty], sty |-> sty]
+JsonSecretTpls(ty) ==
+  {[k |-> "S", ty |-> ty, sty |-> "String"],
+   [k |-> "obj", ty |-> ty, json |-> TRUE,
+    entries |-> <<[key |-> "a", val |-> JsonLeaf("String")],
+                  [key |-> "b", val |-> [k |-> "obj", ty |-> ty, json |-> TRUE, entries |-> <<[key |-> "c", val |-> JsonLeaf("Int")]>>]]>>],
+   [k |-> "list", ty |-> ty, json |-> TRUE,
+    items |-> <<[k |-> "obj", ty |-> ty, json |-> TRUE, entries |-> <<[key |-> "a", val |-> JsonLeaf("String")]>>]>>]}
 RECURSIVE Tpl(_, _, _), ObjProd(_, _, _, _, _)
 Tpl(ty, sec, d) ==
   LET t == Strip(ty) IN
-  IF t.k = "list"
+  IF t.k = "named" /\ t.n = "JSON"
+  THEN (IF sec THEN JsonSecretTpls(ty) ELSE {[k |-> "obj", ty |-> ty, json |-> TRUE, entries |-> <<[key |-> "a", val |-> [k |-> "str", v |-> "pub", ty |-> ty]]>>]})
+  ELSE IF t.k = "list"
   THEN {[k |-> "list", ty |-> ty, items |-> <<x>>] : x \in Tpl(t.of, sec, d)}
        \cup (IF MaxListLen >= 2 THEN {[k |-> "list", ty |-> ty, items |-> <<x, x>>] : x \in Tpl(t.of, sec, d)} ELSE {})
   ELSE IF KindOf(t.n) = "INPUT_OBJECT"
@@ -230,7 +243,8 @@ RECURSIVE LiftOne(_)
 LiftOne(v) ==
   IF ~HasS(v) THEN {}
   ELSE {[k |-> "V", mode |-> m, ty |-> v.ty, of |-> v] : m \in VarModes}
-       \cup (CASE v.k = "list" -> UNION {{[v EXCEPT !.items[i] = w] : w \in LiftOne(v.items[i])} : i \in 1..Len(v.items)}
+       \cup (CASE "json" \in DOMAIN v -> {}
+               [] v.k = "list" -> UNION {{[v EXCEPT !.items[i] = w] : w \in LiftOne(v.items[i])} : i \in 1..Len(v.items)}
                [] v.k = "obj"  -> UNION {{[v EXCEPT !.entries[i].val = w] : w \in LiftOne(v.entries[i].val)} : i \in 1..Len(v.entries)}
                [] OTHER -> {})
 ArgOptions(T, f, a, d) ==
